@@ -421,6 +421,9 @@ func runUDP(leg, key, desc string, dgrams [][]byte, v *verdict, recognise bool) 
 		if !bytes.Equal(in, d) {
 			report(leg, "caller-buffer-modified", key, "AppendData/SniffUdp modified the caller's datagram input="+desc, detail())
 		}
+		for k := range in { // the caller's receive buffer is recycled for the next datagram (control/udp.go does so)
+			in[k] = 0xEE
+		}
 		if err == nil && name != "" && !v.allows(name) {
 			dt := detail()
 			dt["reported"], dt["carried"], dt["step"] = name, v.carried, i
@@ -544,9 +547,12 @@ func main() {
 	}
 	thorough := R.Thorough()
 	R.Rule("TLS: every generated ClientHello (2 versions x sid 0/32 x 1-3 suites x every ordered selection of <=4 of {SNI,ALPN,supported_versions,GREASE,padding} x 8 SNI-list shapes, plus the no-extensions forms) x every cutting into <=2 reads with first read >=5 bytes x {record alone, last read runs on into later data} x 4 relay routes (thorough adds every cutting into 3 reads for the hellos with empty session id and one suite); " +
-		"HTTP: every head of genHTTPHeads in one read x 4 routes, 7 heads x every 2-read cut; QUIC: 2 versions x 2 hellos x CRYPTO stream cut at boundary offsets (thorough: every offset) into <=3 frames x every order x 5 PADDING/PING patterns x {1 packet, 2 coalesced, 2 datagrams} x every split point; " +
+		"HTTP: every head of genHTTPHeads in one read x 4 routes, 7 heads x every 2-read cut; QUIC: 2 versions x 2 hellos x CRYPTO stream cut at boundary offsets (thorough: every offset) into <=3 frames (and into 2 overlapping frames) x every order x 5 PADDING/PING patterns x {1 packet, 2 coalesced, 2 datagrams} x every split point; " +
 		"negatives: every truncation and single-bit flip of one TLS/HTTP/QUIC instance (and of the hello inside QUIC), all strings of length <=4 (thorough <=6) over {16,03,01,'G',c0,00}, QUIC packets with every frame-byte string of length <=3 (thorough <=4) over {00,01,06,1c,02,40,ff} in 4 placements, every single and pairwise +-1/+-2 perturbation of the length fields, every extension block of length <=5 (thorough <=6) over {00,01,02,03,05,'a'}; " +
 		"distinct_nontrivial = distinct (input bytes, cutting) pairs with a non-empty input, hashed")
+	if k := os.Getenv("C06_KEEP"); k != "" { // development aid: keep more cases per violation class
+		fmt.Sscan(k, &keepPer)
+	}
 	only := os.Getenv("C06_ONLY") // development aid: run a single leg
 	if only == "" || only == "tls" {
 		legTLS(thorough)
